@@ -150,14 +150,7 @@ def fixed_grid_runner(cfg):
         solver = make_solver(ssm, cfg, constraint, cinit)
         solve = ivpsolve.solve_fixed_grid(solver=solver)
         sol = solve(prior, grid=grid, damp=damp)
-        mean, cov = sol.u.to_multivariate_normal()
-        out = dict(t=sol.t, mean=mean, cov=cov, scale=sol.output_scale, num_steps=sol.num_steps)
-        if cfg["strategy"] == "filter":
-            pass
-        else:
-            fm, fc = sol.solution_full.filtering.to_multivariate_normal()
-            out["filt_mean"], out["filt_cov"] = fm, fc
-        return out
+        return _solution_outputs(cfg, sol)
 
     fn = jax.jit(run)
     _CACHE[key] = fn
@@ -169,9 +162,24 @@ def fixed_grid_runner(cfg):
 # the Solver / error-estimator protocols, so wrapping objects observe every call).
 
 
+ATTEMPT_BUDGET = 4000
+
+
 class Recorder:
     def __init__(self):
         self.events = []
+        self.attempts = 0
+        self.budget_hit = False
+
+    def count_attempt(self, t, dt, n):
+        """Host-side attempt counter (watchdog): termination is not part of any property, and a
+        run that needs more than ATTEMPT_BUDGET attempts is made to finish (dt -> huge) and the
+        case is counted as inconclusive."""
+        self.events.append(("attempt", np.asarray(t).tolist(), np.asarray(dt).tolist(), np.asarray(n).tolist()))
+        self.attempts += 1
+        if self.attempts > ATTEMPT_BUDGET:
+            self.budget_hit = True
+        return np.asarray(self.budget_hit)
 
     def emit(self, kind, *vals):
         def cb(*a):
@@ -182,6 +190,10 @@ class Recorder:
     def take(self):
         jax.effects_barrier()
         ev, self.events = self.events, []
+        self.attempts = 0
+        hit, self.budget_hit = self.budget_hit, False
+        if hit:
+            ev.append(("budget_hit",))
         return ev
 
 
@@ -196,7 +208,10 @@ class RecSolver:
         return self.inner.init(t=t, u=u, damp=damp)
 
     def step(self, state, *, dt, damp):
-        self.rec.emit("attempt", state.t, dt, state.num_steps)
+        from jax.experimental import io_callback
+
+        over = io_callback(self.rec.count_attempt, jax.ShapeDtypeStruct((), jnp.bool_), state.t, dt, state.num_steps, ordered=True)
+        dt = jnp.where(over, 1e30, dt)
         return self.inner.step(state=state, dt=dt, damp=damp)
 
     def interpolate_fwd(self, *, t, interp_from, interp_to):
@@ -261,6 +276,10 @@ def make_control(cfg):
 
 def accepted_steps(events):
     """[(t_from, dt)] of accepted attempts, from ('attempt', t, dt, n) / ('error', t, dt, ep)."""
+    if any(e[0] == "budget_hit" for e in events):
+        from vlib import common
+
+        raise common.Inconclusive(f"attempt budget ({ATTEMPT_BUDGET}) exhausted")
     errs = [e for e in events if e[0] == "error"]
     return [(e[1], e[2]) for e in errs if e[3] >= 1.0], errs
 
